@@ -37,7 +37,7 @@ type c19Case struct {
 
 func c19Cases(tier string) []c19Case {
 	var out []c19Case
-	for _, cl := range []string{"sj", "ls"} {
+	for _, cl := range []string{"sj", "ss", "ls"} {
 		for mask := 0; mask < 16; mask++ {
 			c := c19Case{Client: cl, Static: mask&1 != 0, Before: mask&2 != 0, Handler: mask&4 != 0, Path: mask&8 != 0}
 			out = append(out, c)
@@ -156,6 +156,20 @@ func c19Eval(tier string, i int) CaseResult {
 				_, e := cl.CallTool(tok("calltool"), rq)
 				return e
 			}})
+			do(step{"listprompts", func() error { _, e := cl.ListPrompts(tok("listprompts"), &mcp.ListPromptsRequest{}); return e }})
+			do(step{"getprompt", func() error {
+				rq := &mcp.GetPromptRequest{}
+				rq.Params.Name = "p"
+				_, e := cl.GetPrompt(tok("getprompt"), rq)
+				return e
+			}})
+			do(step{"listresources", func() error { _, e := cl.ListResources(tok("listresources"), &mcp.ListResourcesRequest{}); return e }})
+			do(step{"readresource", func() error {
+				rq := &mcp.ReadResourceRequest{}
+				rq.Params.URI = "res://r"
+				_, e := cl.ReadResource(tok("readresource"), rq)
+				return e
+			}})
 			do(step{"rootschanged", func() error { return cl.SendRootsListChangedNotification(tok("rootschanged")) }})
 			if sc, ok := cl.(mcp.SessionClient); ok && cs.Client != "ls" {
 				do(step{"terminate", func() error { return sc.TerminateSession(tok("terminate")) }})
@@ -182,6 +196,14 @@ func c19Eval(tier string, i int) CaseResult {
 				kind, wantTok = "POST-request", "listtools"
 			case strings.Contains(body, `"tools/call"`):
 				kind, wantTok = "POST-request", "calltool"
+			case strings.Contains(body, `"prompts/list"`):
+				kind, wantTok = "POST-request", "listprompts"
+			case strings.Contains(body, `"prompts/get"`):
+				kind, wantTok = "POST-request", "getprompt"
+			case strings.Contains(body, `"resources/list"`):
+				kind, wantTok = "POST-request", "listresources"
+			case strings.Contains(body, `"resources/read"`):
+				kind, wantTok = "POST-request", "readresource"
 			case strings.Contains(body, `roots/list_changed"`):
 				kind, wantTok = "POST-notification", "rootschanged"
 			case strings.Contains(body, `"id":901`):
@@ -250,11 +272,11 @@ func c19Eval(tier string, i int) CaseResult {
 }
 
 func init() {
-	RegisterEnum(&Enum{Name: "c19/configs", Doc: "every subset of {static headers, before-request function, custom request handler, custom path} x before-request failing at one operation x {Streamable, legacy SSE} client; a history that makes the client emit every request kind; every request received by a recording server is checked",
+	RegisterEnum(&Enum{Name: "c19/configs", Doc: "every subset of {static headers, before-request function, custom request handler, custom path} x before-request failing at one operation x {Streamable/JSON answers, Streamable/SSE answers, legacy SSE} client; a history that makes the client emit every request kind; every request received by a recording server is checked",
 		Count: func(tier string) int { return len(c19Cases(tier)) }, Eval: c19Eval})
 	RegisterCheck("C19", func(c *Ctx) {
 		c.Level = "exploration"
-		c.Rule = "complete enumeration of the 16 configuration subsets x before-request behaviours x 2 client kinds; per case one history emitting every request kind (initialize, initialized, requests, notification, GET stream, answers to a server-issued roots/list and to an unknown server request, DELETE / legacy connect GET and POSTs); every request the recording server received is checked for path, static headers, session id, passage through the custom handler, and exactly one before-request call with the operation's (or the handshake's) context token"
+		c.Rule = "complete enumeration of the 16 configuration subsets x before-request behaviours x 3 client/answer kinds (Streamable with JSON answers, Streamable with SSE answers, legacy SSE); per case one history emitting every request kind (initialize, initialized, requests, notification, GET stream, answers to a server-issued roots/list and to an unknown server request, DELETE / legacy connect GET and POSTs); every request the recording server received is checked for path, static headers, session id, passage through the custom handler, and exactly one before-request call with the operation's (or the handshake's) context token"
 		c.Assume = append(c.Assume, "a custom http.Client cannot be configured through the public options and is therefore not a dimension", "memnet replaces net/http; default schedule")
 		c.Enumerate("c19/configs")
 	})
